@@ -10,6 +10,10 @@ type ConsumerPlan struct {
 	Abandon  int   `json:"abandon"`             // stop receiving for ever after this many elements; −1: never
 	DelaysMs []int `json:"delays_ms,omitempty"` // virtual sleep before receive i (cyclic)
 	StartMs  int   `json:"start_ms,omitempty"`  // virtual sleep before the first receive
+	// AfterClosed names another consumer: this one starts receiving only once
+	// that one has observed the close of its channel (a sequential reader:
+	// "drain the errors, then look at the values").
+	AfterClosed string `json:"after_closed,omitempty"`
 }
 
 // ProducerPlan describes the environment task feeding one input channel.
